@@ -121,6 +121,8 @@ def lake_build(targets, timeout=3000):
 
 def theorems_of(path):
     """Names (fully qualified where a namespace line is present) of theorems in a Props file."""
+    if not os.path.exists(path):
+        return []
     src = open(path).read()
     src_nc = strip_lean_comments(src)
     ns = []
